@@ -679,6 +679,12 @@ func c02Reject(c *Ctx) {
 		{"rdnss-wildcard-twice", "parseRDNSS", "at most one ::", func(r rejection) bool {
 			return r.has(atomCall(".IsUnspecified", true)) && lastIs(r, func(a an.PathAtom) bool { return a.Pos && (a.Cond.Op == an.OpLoop || isLoopFlagAtom(a, "auto")) })
 		}},
+		{"rdnss-zoned", "parseRDNSS", "servers carry no zone (the wildcard and duplicates are recognised on the address alone)", func(r rejection) bool {
+			return lastIs(r, func(a an.PathAtom) bool {
+				x, y, op, ok := effCmp(a)
+				return ok && op == token.NEQ && y.IsConst(`""`) && x.Op == an.OpCall && x.Fn != nil && x.Fn.String() == "(net/netip.Addr).Zone"
+			})
+		}},
 		{"rdnss-duplicate", "parseRDNSS", "servers unique", func(r rejection) bool {
 			return lastIs(r, func(a an.PathAtom) bool { return a.Pos && filterKind(a) == "Seen" })
 		}},
